@@ -168,6 +168,48 @@ def classify(kind, canonical, exp, ok, out, base):
     return "ok", ""   # constructor arguments: one-directional check only
 
 
+def part_templates(ctx):
+    """O-tie, semantic side: run the OBSERVED decoder templates of both pipelines inside Coq (SxEval / VxEval) on
+    canonical and corrupted payloads in dirty memory and compare with the implementation-level models idec Legacy /
+    idec Venom (accept/reject; on accept the vyper-layout value written at dst)."""
+    from vlib import c06_tpl as TP
+    fam = TP.shape_family()
+    r = ctx.rng("tplvals")
+    step = 3 if ctx.tier == "quick" else 1
+    exprs, meta = [], []
+    for i, t in enumerate(fam):
+        if i % step:
+            continue
+        v = A.gen_value(r, t, r.choice(["max", "rand"]))
+        base = A.py_enc(("tuple", (t,)), [v], 0)
+        nw = len(base) // 32
+        cs = ["CX []", f"CT {len(base) - 1}", f"CT {max(len(base) - 32, 0)}", "CX (repeat 255 32)"]
+        for wi in sorted(set([0, nw - 1, r.randrange(nw)])):
+            w = int.from_bytes(base[32 * wi:32 * wi + 32], "big")
+            for x in (len(base), len(base) - 32, 2 ** 256 - 4096, (w + 1) % 2 ** 256, 2 ** 256 - 1):
+                cs.append(f"CW {wi} {hex(x % 2 ** 256)}")
+        ct = A.coq_ty(t)
+        cl = "[" + "; ".join(cs) + "]"
+        exprs.append(f"let t := {ct} in let base := enc (TTuple [t]) (VList [{A.coq_val(t, v)}]) in "
+                     f"map (fun c => run_dec_tpl (snd (nth {i} obs_dec_l (TBool, SI 0))) t (apply_c c base)) {cl} ++ "
+                     f"map (fun c => run_dec_tpl_v (snd (nth {i} obs_dec_v (TBool, SI 0))) t (apply_c c base)) {cl}")
+        meta.append((t, v, cs))
+    imp = ("From Verif Require Import C06.Abi C06.Sexp C05.Dec C05.Harness C05.TplRun C05.GenTplDecL C05.GenTplDecV.\n")
+    outs = coqrun.eval_zlists(imp, exprs, "c05tplrun", shard=6, timeout=400)
+    n = 0
+    for (t, v, cs), o in zip(meta, outs):
+        n += len(o)
+        if any(x != 1 for x in o):
+            bad = [(("legacy" if j < len(cs) else "venom"), cs[j % len(cs)], x) for j, x in enumerate(o) if x != 1]
+            ctx.violation("correspondence-broken", "an OBSERVED decoder template, executed in Coq, disagrees with the "
+                          "implementation-level model (DecImpl.v)",
+                          {"shape": A.eth_ty(t), "coq_type": A.coq_ty(t), "value": repr(v), "disagreements": bad[:8]})
+            break
+    ctx.corr["template_family"] = len(fam)
+    ctx.corr["template_executions_in_coq"] = n
+    return n
+
+
 def do_replay(ctx):
     """re-execute exactly the recorded input on the current /repo tree; the model outcome is the recorded one"""
     import json
@@ -214,10 +256,26 @@ def run(ctx):
     # shared ABI development (coq/STATIC, owner C06): rebuilt only if stale; C05's own files on every run
     b = ctx.coq_build(["C06/Abi.v", "C06/AbiLemmas.v", "C06/Roundtrip.v"], force=False)
     if b["ok"]:
-        b = ctx.coq_build(["C06/ZeroPad.v"], force=False)
+        b = ctx.coq_build(["C06/ZeroPad.v", "C06/Sexp.v", "C06/TplEncL.v", "C06/TplEncV.v", "C06/SxEval.v", "C06/VxEval.v"],
+                          force=False)
     if b["ok"]:
         b = ctx.coq_build(["C05/Dec.v", "C05/DecProofs.v", "C05/ReadsInside.v", "C05/DecImpl.v", "C05/DecImplProofs.v",
-                           "C05/PropsC05.v", "C05/Harness.v"])
+                           "C05/PropsC05.v", "C05/Harness.v", "C05/TplDecL.v", "C05/TplDecV.v", "C05/TplRun.v"])
+    # O-tie of the decoder templates: observed IR of both pipelines for the shape family
+    tie = {"ok": False}
+    tpl_err = None
+    if b["ok"]:
+        try:
+            from vlib import c06_tpl as TP
+            from vlib.common import COQ
+            TP.write_gen(COQ, "dec")
+            g = ctx.coq_build(["C05/GenTplDecL.v", "C05/GenTplDecV.v"])
+            if g["ok"]:
+                tie = ctx.coq_build(["C05/TieDec.v"])
+            else:
+                tpl_err = "observed template tables do not compile: " + str(g.get("out"))[-300:]
+        except Exception as e:  # noqa
+            tpl_err = f"template export failed: {type(e).__name__}: {e}"[:400]
     harness_ok = b["ok"] or "Harness" not in str(b.get("file", "")) and "Dec.v" not in str(b.get("file", ""))
     pairs = make_pairs(ctx, 20 if quick else 90, 3 if quick else 4)
     types = [t for t, _ in pairs]
@@ -412,6 +470,25 @@ def run(ctx):
                           "canonical_base": base_for.hex(), "ctor_base": bl[vi].hex(), "kwsel": [x.hex() for x in kwsel]}
                 ctx.violation("failing-input" if verdict == "failing" else "correspondence-broken", f"{kind}: {text}", detail)
     found = any(v["kind"] == "failing-input" for v in ctx.violations)
+    if b["ok"] and tpl_err is None:
+        total += part_templates(ctx)
+    if tpl_err is not None:
+        ctx.violation("translator-rejected", "decoder template export: " + tpl_err, {"error": tpl_err})
+    elif b["ok"] and not tie["ok"]:
+        from vlib import c06_tpl as TP
+        try:
+            fl, fv = TP.differing_shapes("dec")
+            fam = TP.shape_family()
+            dl = [A.eth_ty(t) for t, ok in zip(fam, fl) if not ok]
+            dv = [A.eth_ty(t) for t, ok in zip(fam, fv) if not ok]
+        except Exception as e:  # noqa
+            dl, dv = [f"(could not localise: {e})"], []
+        ctx.violation("correspondence-broken", f"{tie.get('failed_lemma')}: emitted decoder IR differs from the template model "
+                      f"(TplDec*.v) for {len(dl)} legacy / {len(dv)} venom shapes",
+                      {"theorem": tie.get("failed_lemma"), "legacy_shapes": dl[:12], "venom_shapes": dv[:12],
+                       "replay": "tools/vlib/c06_tpl.py export_legacy_dec / export_venom_dec on the listed shapes",
+                       "search": "observed templates executed in Coq + corruption stream on the EVM ran" +
+                                 ("; failing inputs reported" if found else "; no failing input")})
     from vlib import c06_pins
     for name, got, exp in c06_pins.check(DECODER_PINS):
         ctx.violation("correspondence-broken", f"decoder source no longer matches the implementation-level model "
